@@ -342,7 +342,8 @@ struct rp_h {
     int backend_small_buffer;   /* handed a buffer with less room than asked */
     /* optional: the source exposes a window through the getbuffer extension, so that the plumbing moves
      * several octets at a time into the receiver's sink */
-    unsigned char win[80];
+    unsigned char win[80], win2[80]; /* two banks: the window source is double-buffered */
+    unsigned winbank;
     size_t winsize;
 };
 
@@ -499,7 +500,10 @@ rp_getbuffer(Source *s)
 {
     struct rp_h *h = s->driver;
     ByteBuffer b;
-    byte_buffer_use(&b, h->win, h->winsize);
+    unsigned char *cur = (h->winbank & 1u) ? h->win2 : h->win, *nxt = (h->winbank & 1u) ? h->win : h->win2;
+    memset(cur, 0xEE, sizeof h->win);
+    h->winbank++;
+    byte_buffer_use(&b, nxt, h->winsize);
     return b;
 }
 
